@@ -60,7 +60,9 @@ def graph_relations(graph_text: str) -> dict:
                 # the DECLARED need ("DEFAULT (implied by sinks > OPTIONAL)": declared OPTIONAL, needed by a sink)
                 "need": ((props.get("need") or ["?"])[0].rstrip(")").split() or ["?"])[-1],
                 "state": (props.get("state") or ["?"])[0],
-                "env": {v.replace("[dynamic]", "").strip() for v in props.get("using_env", [])}}
+                "env": {v.replace("[dynamic]", "").strip() for v in props.get("using_env", [])},
+                # the DECLARED (not amended) variables on record
+                "env_decl": {v.strip() for v in props.get("using_env", []) if "[dynamic]" not in v}}
         for k0 in rel.get("source", []):
             k = _strip(k0)
             if k.startswith("file:"):
@@ -155,6 +157,22 @@ def unjustified(executed: list, edited: list, pre: dict, post: dict) -> list:
     return bad
 
 
+def declared_steps(program: dict) -> dict:
+    """label -> {"env": set} as the plan scripts of the project declare it now (steps of `foreach` templates are
+    left out: their labels are patterns)."""
+    out = {}
+
+    def walk(actions):
+        for a in actions or []:
+            if not isinstance(a, dict):
+                continue
+            if a.get("op") in ("step", "run", "plan") and "{" not in a.get("label", "{"):
+                out[a["label"]] = {"env": set(a.get("env", []))}
+    for actions in (program.get("scripts") or {}).values():
+        walk(actions)
+    return out
+
+
 def _ancestors(label: str, g: dict) -> set:
     out, cur = set(), g.get(label, {}).get("creator")
     while cur is not None and cur not in out:
@@ -181,7 +199,7 @@ def dyn_inputs_stay_attached(label: str, executed: set, pre: dict, files_before:
 
 
 def rerun_without_cause(executed: list, edited: list, pre: dict, post: dict, files_before: dict,
-                        files_after: dict, stats: dict | None = None) -> list:
+                        files_after: dict, stats: dict | None = None, declared: dict | None = None) -> list:
     """The rule behind the skip check: a step whose inputs did not change is skipped, not executed.
     Executed labels that existed before with the same declared inputs and outputs, all outputs
     on disk, consume no edited path (nor match one with a glob pattern), track no edited variable and none of whose
@@ -197,6 +215,17 @@ def rerun_without_cause(executed: list, edited: list, pre: dict, post: dict, fil
         a, b = pre[label], post[label]
         if a["inputs"] != b["inputs"] or a["outputs"] != b["outputs"]:
             continue                                            # declared differently
+        # A step whose creator is rerun is skipped only when the new declaration RECYCLES it (Step.can_recycle: same
+        # initial inputs, variables, outputs as on record); otherwise it is defined anew on its old node, loses its
+        # amended outputs and fails the check: "declared by an executed step".  Inputs and outputs on record equal
+        # the declaration (compared above); the variables on record may be stale (a former declaration's rows are
+        # kept by a partial recycle: known finding D9 of C01), so they are compared with the plan script.
+        if declared is not None and label in declared and _ancestors(label, pre) & exe \
+                and declared[label]["env"] != a["env_decl"]:
+            if stats is not None:
+                key = "cone:skip_rule:redefined_by_the_rerun_plan(recorded_variables_differ_from_the_declaration)"
+                stats[key] = stats.get(key, 0) + 1
+            continue
         inputs = a["inputs"]
         dyn = bool(a["dyn_inputs"] or b["dyn_inputs"])
         dyn_ok = dyn and a["dyn_inputs"] == b["dyn_inputs"] and dyn_inputs_stay_attached(label, exe, pre, files_before)
@@ -890,7 +919,11 @@ def run_absorbed(item: dict) -> dict:
         if flavour != "restart":                       # a watching director does not see the shell's environment
             edits = [e for e in edits if e["op"] != "setenv"]
             edited = [p for p in edited if not p.startswith(ENV_PREFIX)]
-    sub = dict(item, project=project.to_json(), history=[], cone_edits=[edits, edited], cone_schedule=None,
+    # restart flavour: half of the rebuilds run under a random schedule of the command ends (the executed set must
+    # not depend on it: C04_exec_cone_all_schedules)
+    schedule = item.get("cone_schedule", {"seed": rng.randint(0, 10 ** 6)}
+                        if flavour == "restart" and "project" not in item and rng.random() < 0.5 else None)
+    sub = dict(item, project=project.to_json(), history=[], cone_edits=[edits, edited], cone_schedule=schedule,
                skip_env=True, max_phases=1)
     sub.pop("kind", None)
     rep = run_case(sub)
@@ -898,6 +931,8 @@ def run_absorbed(item: dict) -> dict:
     rep["stats"][f"absorbed:{variant.split('+')[0]}"] = 1
     for feat in variant.split("+")[1:]:
         rep["stats"][f"absorbed:with:{feat}"] = 1
+    if schedule is not None:
+        rep["stats"]["absorbed:random_schedule"] = 1
     if engine is not None and rep.get("cone_log") and not rep.get("timeout") and rep.get("first_ran") is not None:
         rep["engine_term"] = engine_term(engine, flavour, rep["first_ran"], rep["cone_log"])
     return rep
@@ -1055,7 +1090,8 @@ def _cone_check(item, rng, proj, ref, rebuild, flavour, report, count, fail, roo
                  f"edited {edited}; executed {executed}; not justified by any clause: {rest}",
                  {"edited": edited, "executed": executed, "unjustified": rest})
     if new.returncode == OK_RC and not new.error:
-        causeless = rerun_without_cause(executed, edited, pre, post, ref.files, new.files, report["stats"])
+        causeless = rerun_without_cause(executed, edited, pre, post, ref.files, new.files, report["stats"],
+                                        declared_steps(proj.program))
         count("cone:skip_rule_checked", len(set(executed)))
         if causeless:
             fail(f"oracle:cone:{flavour}:executed-with-unchanged-inputs",
